@@ -24,7 +24,7 @@ from c21 import enum_predicate, const_bytes    # noqa: E402
 
 META = {
     'level': 'proof',
-    'decides': 'the complete opcode activation table (256 bytes x every SpecId) and the precompile address table (every address x every SpecId) as composed from the spec dispatch, SPEC_ID constants, the enabled() comparison, the instruction table and each handler\'s fork gate; EOF-only guards; error class of gated-off results',
+    'decides': 'the complete opcode activation table (256 bytes x every SpecId) and the precompile address table (every address x every SpecId) as composed from the spec dispatch, SPEC_ID constants, the enabled() comparison, the instruction table and each handler\'s fork gate; EOF-only guards; error class of gated-off results; that every run-time fork gate of the workspace asks `current spec >= named fork` (operand orientation)',
     'does_not_decide': 'what an active opcode or precompile computes (C01, C03, C23)',
     'explanation': 'Table extraction from MIR (switch on the opcode byte, switch on SpecId, inline-const gates evaluated by partial evaluation) compared cell by cell with an independently written reference; obligations = table cells.',
 }
